@@ -271,12 +271,21 @@ Definition spec_initial (a : AId) : option string :=
   | _ => None
   end.
 Local Close Scope string_scope.
+(* properties that are not presentation attributes for usvg: only CSS / the style attribute reach them *)
+Definition spec_style_only (a : AId) : bool :=
+  match a with A_MixBlendMode | A_Isolation | A_FontKerning => true | _ => false end.
+Definition spec_css_only_values : list string := ["smooth"; "high-quality"; "crisp-edges"; "pixelated"]%string.
 Definition opt_string_eqb (a b : option string) : bool :=
   match a, b with Some x, Some y => String.eqb x y | None, None => true | _, _ => false end.
 (* boolean checkers (also used to search for a counterexample when the proof breaks) *)
 Definition noninherit_entry_ok (a : AId) : bool :=
   implb (is_presentation a && allows_inherit_value a) (Bool.eqb (is_non_inheritable a) (spec_noninherited a)).
 Definition initial_entry_ok (a : AId) : bool := opt_string_eqb (inherit_default a) (spec_initial a).
+Definition style_only_entry_ok (a : AId) : bool := Bool.eqb (is_style_only a) (spec_style_only a).
+Fixpoint strings_eqb (l m : list string) : bool :=
+  match l, m with [], [] => true | x :: r, y :: s => String.eqb x y && strings_eqb r s | _, _ => false end.
+Definition css_only_ok : bool :=
+  AId_eqb css_only_value_attr A_ImageRendering && strings_eqb css_only_values spec_css_only_values.
 
 (* ---- font-size resolution (units.rs: resolve_font_size), for the `inherit` findings -------------
    The chain lists the specified font-size of each element from the outermost to the element itself. *)
